@@ -24,7 +24,8 @@ type c20Set struct {
 	debug bool
 }
 
-var c20Names = []string{"/a.tpl", "/b.tpl", "/c.tpl"}
+// (two names differ only by characters that mean something in glob patterns: a name is a name)
+var c20Names = []string{"/a.tpl", "/b.tpl", "/c.tpl", "/l[1].tpl", "/l1.tpl", "/s*.tpl", "/sx.tpl"}
 
 // aliases that resolve to the same file through the loader's Abs
 func c20Alias(t *rapid.T, name string) string {
@@ -588,3 +589,63 @@ func firstLine(s string) string {
 	}
 	return s
 }
+
+// ---- C20.many: the cache has no capacity at which it forgets ---------------------------------
+
+type c20Many struct {
+	N      int   `json:"n"`      // distinct names cached
+	Probes []int `json:"probes"` // names asked again afterwards (indices)
+}
+
+func checkC20Many(c any, r *Rec) error {
+	cs := c.(*c20Many)
+	files := map[string]string{}
+	for i := 0; i < cs.N; i++ {
+		files[fmt.Sprintf("/m/t%d.tpl", i)] = fmt.Sprintf("t%d", i)
+	}
+	ld := newMemLoader(files)
+	set := pongo2.NewSet("c20many", ld)
+	first := make([]*pongo2.Template, cs.N)
+	for i := 0; i < cs.N; i++ {
+		tpl, err := set.FromCache(fmt.Sprintf("/m/t%d.tpl", i))
+		if err != nil {
+			return fmt.Errorf("FromCache of name %d of %d: %v", i, cs.N, err)
+		}
+		first[i] = tpl
+	}
+	for _, p := range cs.Probes {
+		i := p % cs.N
+		name := fmt.Sprintf("/m/t%d.tpl", i)
+		before := ld.hitCount(name)
+		tpl, err := set.FromCache(name)
+		if err != nil {
+			return fmt.Errorf("FromCache(%s) again: %v", name, err)
+		}
+		if tpl != first[i] || ld.hitCount(name) != before {
+			return fmt.Errorf("after %d distinct names were cached, FromCache(%s) returned another instance (same: %v) / fetched again (%d extra) although CleanCache was never called", cs.N, name, tpl == first[i], ld.hitCount(name)-before)
+		}
+	}
+	r.Class(fmt.Sprintf("names>=%d", cs.N/500*500))
+	r.NonTrivial(fmt.Sprint(cs.N, cs.Probes))
+	return nil
+}
+
+var _ = register(&propSpec{
+	ID:   "C20.many",
+	Rule: "one set caches N distinct names (N drawn from 2..2500, biased to the hundreds and to just above 1000 / 2000) and is then asked again for 1-6 of them (the first, the last, random ones): same instance, no fetch - the statement knows no capacity. Non-trivial: every case.",
+	Gen: func(t *rapid.T) any {
+		n := pick(t, "n", []int{2, 17, 100, 255, 256, 257, 500, 999, 1000, 1001, 1024, 1025, 1500, 2047, 2048, 2049, 2500})
+		if drawBool(t, "jitter") {
+			n += drawInt(t, 0, 40, "j")
+		}
+		cs := &c20Many{N: n, Probes: []int{0, n - 1}}
+		for i := drawInt(t, 0, 4, "np"); i > 0; i-- {
+			cs.Probes = append(cs.Probes, drawInt(t, 0, n-1, "p"))
+		}
+		return cs
+	},
+	New:   func() any { return &c20Many{} },
+	Check: checkC20Many,
+})
+
+func TestC20Many(t *testing.T) { runProp(t, "C20.many") }
